@@ -42,7 +42,7 @@ Module Toy.
 
   (* the rows of a keystore for (right passphrase, entropy, account key string) *)
   Definition salt : bytes := [7].
-  Definition run_salt : bytes := [8].
+  Definition run_salt : bytes := 8 :: repeat 8 31.
   Definition ckpriv : bytes := 9 :: repeat 9 31.
   Definition ckent : bytes := 10 :: repeat 10 31.
   Definition cfg (right ent acct : bytes) (known : list addr) : amcfg :=
@@ -85,14 +85,16 @@ Module Toy.
   Section Laws.
     Variable right ent acct : bytes.
     Variable known : list addr.
+    Hypothesis right_ok : ends_nul right = false.
     Local Notation c := (cfg right ent acct known).
 
     Lemma toy_unlock_laws : unlock_laws kdf digest shash open_box sk branch_ok derive_sk c right acct ent sk_of.
     Proof.
       constructor.
       - reflexivity.
-      - intros p E. unfold good, digest in E. cbn [c_salt cfg] in E.
+      - intros p _ E. unfold good, digest in E. cbn [c_salt cfg] in E.
         apply (kdf_inj p right salt). apply (f_equal (@tl Z)) in E. exact E.
+      - exact right_ok.
       - intros p q E. unfold shash in E. inversion E as [E']. reflexivity.
       - apply kdf_nonzero.
       - exists ckpriv. unfold good. cbn [c_salt c_cpriv_enc c_acct_enc cfg]. split; apply open_seal.
